@@ -565,7 +565,7 @@ func hangWhere(stderr string) string {
 	_, stack := splitFatal(stderr)
 	for _, line := range strings.Split(stack, "\n") {
 		if m := gtfsFrame.FindStringSubmatch(strings.TrimSpace(line)); m != nil {
-			return strings.TrimPrefix(m[1], "github.com/jamespfennell/")
+			return strings.TrimPrefix(frameFunc(m[1]), "github.com/jamespfennell/")
 		}
 	}
 	return ""
